@@ -1215,11 +1215,8 @@ func c14sideUse(p *Program, r *Report, rule string) {
 				if len(gf) != 1 {
 					return fmt.Sprintf("%d getFlateReader calls", len(gf))
 				}
-				ci, ok := gf[0].Instr.(ssa.CallInstruction)
-				if !ok {
-					return "?"
-				}
-				if c, isC := ci.Common().Args[1].(*ssa.Const); isC && c.Value == nil {
+				// the dictionary argument on this path (a nil literal, or a local that is still nil here)
+				if c, isC := gf[0].Args[1].(*Const); isC && (c.IsNil || c.Zero != nil) {
 					return "NO-DICTIONARY"
 				}
 				return "DICTIONARY"
